@@ -340,3 +340,31 @@ M('c15-disposition-quoted-form-truncated', 'C15', 'R15', HELP,
   """        return '%s; filename="%s"' % (disposition_type, value)
 """, """        return '%s; filename="%s"' % (disposition_type, value[:64])
 """)
+
+# ---- wave 6: last-segment idioms before the rendering (R15)
+DOC = '''    """Format a Content-Disposition header given a filename."""
+'''
+# seeded change s6-c15-2: "RFC 6266 section 4.3" - only the last path segment is sent: 'AC/DC - Back in Black.mp3' -> 'DC - Back in Black.mp3'
+M('c15-disposition-last-segment-rpartition-or', 'C15', 'R15', HELP, DOC,
+  DOC + "    value = value.replace('\\\\', '/').rpartition('/')[2] or value\n")
+M('c15-disposition-last-segment-rsplit', 'C15', 'R15', HELP, DOC, DOC + "    value = value.rsplit('/', 1)[-1]\n")
+M2('c15-disposition-last-segment-re-split', 'C15', 'R15', [
+    {'file': HELP, 'old': "from __future__ import annotations\n", 'new': "from __future__ import annotations\n\nimport re\n"},
+    {'file': HELP, 'old': DOC, 'new': DOC + "    value = re.split(r'[/\\\\]', value)[-1]\n"}])
+M2('c15-disposition-purepath-name', 'C15', 'R15', [
+    {'file': HELP, 'old': "from __future__ import annotations\n", 'new': "from __future__ import annotations\n\nfrom pathlib import PureWindowsPath\n"},
+    {'file': HELP, 'old': DOC, 'new': DOC + "    value = PureWindowsPath(value).name or value\n"}])
+M2('c15-disposition-ntpath-basename', 'C15', 'R15', [
+    {'file': HELP, 'old': "from __future__ import annotations\n", 'new': "from __future__ import annotations\n\nimport ntpath\n"},
+    {'file': HELP, 'old': DOC, 'new': DOC + "    if '/' in value or '\\\\' in value:\n        value = ntpath.basename(value)\n"}])
+
+# ---- wave 6: the check-escaped encoders behind Location / Content-Location / Link keep a literal '%' (R11 = C10 R1)
+# seeded change s6-c15-1 (generator form): resp.location = '/files/report 100%20done.txt' -> '/files/report%20100%20done.txt'
+M2('c15-location-partial-escape-keeps-percent', 'C15', 'R11', [
+    {'file': 'falcon/util/uri.py', 'old': "    encode_char = _create_char_encoder(allowed_chars)\n",
+     'new': "    encode_char = _create_char_encoder(allowed_chars)\n    keep_escapes = _create_char_encoder(allowed_chars + '%')\n"},
+    {'file': 'falcon/util/uri.py', 'old': "        if check_is_escaped and not uri.rstrip(allowed_chars_plus_percent):",
+     'new': "        if check_is_escaped and '%' in uri:"},
+    {'file': 'falcon/util/uri.py', 'old': "                # encoded.\n                return uri\n",
+     'new': "                # encoded.\n                return ''.join(keep_escapes(b) for b in uri.encode())\n"}],
+   also=('C10',))
